@@ -752,9 +752,9 @@ Proof. intros Hnd Hne. exact (proj1 (proj2 (parse_fields_char fs Hnd Hne))). Qed
 (* ------------------------------------------------------------------------- *)
 (* E. parse back.  The encoder writes the object syntax by hand; that its output is read back by
    the JSON layer as the intended members is a statement about the JSON parser on printed texts.
-   It is isolated here as explicit hypotheses (JSON-level round-trip specifications, each exercised
-   by the differential harness and by the vm_compute instances below); the wire-level argument on
-   top of them is proved. *)
+   These JSON-level round-trip specifications are stated here as Definitions [spec_...] and used as
+   section hypotheses by the wire-level argument; every one of them is PROVED in WireSpecs.v
+   (from json/JsonPrint.v), where the unconditional theorems are derived. *)
 
 Definition fld (kv : bytes * bytes) : bytes := 34 :: fst kv ++ 34 :: 58 :: snd kv.
 Definition obj_open (kvs : list (bytes * bytes)) : bytes := 123 :: join_with [44] (map fld kvs).
@@ -774,9 +774,17 @@ Definition spec_raw_value : Prop := forall v, tight_at 0 v = true -> raw_value v
 Definition spec_depth_mono : Prop := forall d v, tight_at (N.succ d) v = true -> tight_at d v = true.
 Definition spec_string : Prop := forall s, valid_utf8 s = true ->
   unmarshal_string (escape_string s) = Some (Some s) /\ forall d, tight_at d (escape_string s) = true.
-(* encoding/json's struct codec on jrpc2.Error: Unmarshal (Marshal e) gives e back (data compacted) *)
-Definition spec_error_codec : Prop := forall e b, marshal_error e = Some b ->
-  (forall d, tight_at d b = true) /\
+(* encoding/json's struct codec on jrpc2.Error: Unmarshal (Marshal e) gives e back (data compacted).
+   Domain: the code is an int32 (the Go type of Error.Code); the compacted data, which sits one
+   container below the error object, is valid at that depth (encoding/json's nesting limit).
+   The unrestricted statement is false: WireSpecs.spec_error_codec_unrestricted_refuted. *)
+Definition int32_ok (z : Z) : Prop := (-2147483648 <= z <= 2147483647)%Z.
+(* e survives the trip when its object sits d containers deep *)
+Definition err_rt_at (d : N) (e : werr) : Prop :=
+  int32_ok (we_code e) /\
+  (we_data e = [] \/ exists q, compact (we_data e) = Some q /\ tight_at (N.succ d) q = true).
+Definition spec_error_codec : Prop := forall d e b, N.succ d <= max_depth -> err_rt_at d e -> marshal_error e = Some b ->
+  tight_at d b = true /\
   unmarshal_error b = (Some {| we_code := we_code e;
                                we_msg := if valid_utf8 (we_msg e) then we_msg e else snd (true, match unmarshal_string (escape_string (we_msg e)) with Some (Some x) => x | _ => [] end);
                                we_data := match compact (we_data e) with Some q => if beq (we_data e) [] then [] else q | None => [] end |}, true).
@@ -885,12 +893,17 @@ Proof.
       replace (x =? 110) with false; [reflexivity|]. symmetry. apply N.eqb_neq. lia.
 Qed.
 
-(* the domain of the round trip *)
-Record msg_rt (m : jmsg) : Prop := {
+(* the domain of the round trip, for a message that sits d containers deep (0: alone, 1: batch
+   member): its values sit at depth d+1, the data of its error at depth d+2, and must be valid
+   there (encoding/json's nesting limit of 10000 counts the envelope) *)
+Record msg_rt_at (d : N) (m : jmsg) : Prop := {
   rt_method : valid_utf8 (j_method m) = true;
   rt_id : j_id m = [] \/ is_str_lit (j_id m) || is_num_lit (j_id m) = true;
-  rt_params : j_params m = [] \/ (tight_at 1 (j_params m) = true /\ params_ok (j_params m) = true /\ is_null (j_params m) = false);
-  rt_result : j_result m = [] \/ tight_at 1 (j_result m) = true }.
+  rt_params : j_params m = [] \/ (tight_at (N.succ d) (j_params m) = true /\ params_ok (j_params m) = true /\ is_null (j_params m) = false);
+  rt_result : j_result m = [] \/ tight_at (N.succ d) (j_result m) = true;
+  (* only an error that is emitted matters *)
+  rt_error : forall e, j_error m = Some e -> j_method m = [] -> j_result m = [] -> err_rt_at (N.succ d) e }.
+Definition msg_rt (m : jmsg) : Prop := msg_rt_at 0 m.
 
 (* what a message denotes on the wire: the encoder ignores params without a method, a result next
    to a method, an error next to a result *)
@@ -918,23 +931,32 @@ Section ParseBack.
   Hypothesis Herr : spec_error_codec.
   Let Hlit : spec_lit_tight := lit_tight.
 
-  Lemma fields_ok m eb : msg_rt m ->
+  Lemma depth_le_1 : N.succ 0 <= max_depth. Proof. vm_compute; discriminate. Qed.
+  Lemma depth_le_2 : N.succ (N.succ 0) <= max_depth. Proof. vm_compute; discriminate. Qed.
+  Lemma depth_le_3 : N.succ (N.succ 1) <= max_depth. Proof. vm_compute; discriminate. Qed.
+
+  Lemma fields_ok d m eb : N.succ (N.succ d) <= max_depth -> msg_rt_at d m ->
     (forall e, j_error m = Some e -> negb (beq (j_method m) []) = false -> negb (beq (j_result m) []) = false -> marshal_error e = Some eb) ->
-    forall kv, In kv (msg_fields m eb) -> plain_key (fst kv) = true /\ tight_at 1 (snd kv) = true.
+    forall kv, In kv (msg_fields m eb) -> plain_key (fst kv) = true /\ tight_at (N.succ d) (snd kv) = true.
   Proof.
-    intros [Rm Ri Rp Rr] He kv. unfold msg_fields.
-    assert (Hi : beq (j_id m) [] = false -> tight_at 1 (j_id m) = true).
-    { intros Hb. destruct Ri as [Ri|Ri]; [rewrite Ri in Hb; discriminate | exact (Hlit 1 _ Ri)]. }
-    assert (Hp : beq (j_params m) [] = false -> tight_at 1 (j_params m) = true).
+    intros Hd [Rm Ri Rp Rr Re] He kv. unfold msg_fields.
+    assert (Hi : beq (j_id m) [] = false -> tight_at (N.succ d) (j_id m) = true).
+    { intros Hb. destruct Ri as [Ri|Ri]; [rewrite Ri in Hb; discriminate | exact (Hlit _ _ Ri)]. }
+    assert (Hp : beq (j_params m) [] = false -> tight_at (N.succ d) (j_params m) = true).
     { intros Hb. destruct Rp as [Rp|Rp]; [rewrite Rp in Hb; discriminate | apply Rp]. }
-    assert (Hr : negb (beq (j_result m) []) = true -> tight_at 1 (j_result m) = true).
+    assert (Hr : negb (beq (j_result m) []) = true -> tight_at (N.succ d) (j_result m) = true).
     { intros Hb. destruct Rr as [Rr|Rr]; [rewrite Rr in Hb; discriminate | exact Rr]. }
+    assert (Hee : forall e, j_error m = Some e -> negb (beq (j_method m) []) = false -> negb (beq (j_result m) []) = false ->
+                   tight_at (N.succ d) eb = true).
+    { intros e Ee Em Er. refine (proj1 (Herr (N.succ d) e eb Hd _ (He e Ee Em Er))).
+      apply (Re e Ee); [apply negb_false_iff, beq_eq in Em; exact Em | apply negb_false_iff, beq_eq in Er; exact Er]. }
     destruct (beq (j_id m) []) eqn:Ei; destruct (negb (beq (j_method m) [])) eqn:Em;
       try destruct (beq (j_params m) []) eqn:Ep; try destruct (negb (beq (j_result m) [])) eqn:Er;
       try destruct (j_error m) as [e|] eqn:Ee; cbn [app In];
       intros H; repeat (destruct H as [<-|H]); try contradiction; cbn [fst snd]; split; try reflexivity;
       try (apply Hi; reflexivity); try (apply Hp; reflexivity); try (apply Hr; reflexivity);
-      try (apply (proj2 (Hstr _ Rm))); try (apply (proj1 (Herr e eb (He e eq_refl eq_refl eq_refl)))).
+      try (apply (proj2 (Hstr _ Rm))); try (apply (Hee e eq_refl eq_refl eq_refl)).
+    all: exact (Hlit _ _ eq_refl).
   Qed.
 
   Lemma msg_fields_nodup m eb : last_wins (msg_fields m eb) = msg_fields m eb.
@@ -951,11 +973,13 @@ Section ParseBack.
   Lemma parse_back_member m b : msg_rt m -> enc_msg m = Some b -> parse_member b = canon m.
   Proof.
     intros Hrt Henc. destruct (enc_msg_fields _ _ Henc) as (eb & -> & He).
-    pose proof (fields_ok m eb Hrt He) as Hok.
+    pose proof (fields_ok 0 m eb depth_le_2 Hrt He) as Hok.
     pose proof (Hmem _ (msg_fields_ne m eb) Hok) as Hraw.
     unfold parse_member, parse_member_ord, member_fields. rewrite Hraw, msg_fields_nodup.
-    destruct Hrt as [Rm Ri Rp Rr].
+    destruct Hrt as [Rm Ri Rp Rr Re].
     destruct (Hstr _ Rm) as [Hus _].
+    assert (Hm0 : negb (beq (j_method m) []) = false -> j_method m = []) by (intros X; apply negb_false_iff, beq_eq in X; exact X).
+    assert (Hr0 : negb (beq (j_result m) []) = false -> j_result m = []) by (intros X; apply negb_false_iff, beq_eq in X; exact X).
     assert (Hv : unmarshal_string v20 = Some (Some version)) by (vm_compute; reflexivity).
     unfold parse_fields, canon, msg_fields.
     destruct (beq (j_id m) []) eqn:Ei; destruct (negb (beq (j_method m) [])) eqn:Em;
@@ -970,7 +994,7 @@ Section ParseBack.
       | H : beq (j_params _) [] = false |- _ =>
         destruct Rp as [Rp|(_ & Hpo & Hnl)]; [rewrite Rp in H; discriminate H|]; rewrite Hnl; cbn [set_params set_method set_id j_params j_empty]; rewrite Hpo; clear H
       end.
-    all: try (rewrite (proj2 (Herr e eb (He e eq_refl eq_refl eq_refl)))).
+    all: try (rewrite (proj2 (Herr 1 e eb depth_le_2 (Re e eq_refl (Hm0 eq_refl) (Hr0 eq_refl)) (He e eq_refl eq_refl eq_refl)))).
     all: unfold finish, set_method, set_params, set_id, set_result, set_error, j_empty, fail;
       cbn [ps_v ps_m ps_extra j_id j_method j_params j_error j_result j_err];
       change (beq version version) with true;
@@ -989,7 +1013,7 @@ Section ParseBack.
                unmarshal_string v20 = Some (Some version).
   Proof.
     intros Hrt Henc. destruct (enc_msg_fields _ _ Henc) as (eb & -> & He). exists eb.
-    split; [exact (Hmem _ (msg_fields_ne m eb) (fields_ok m eb Hrt He))|]. split; [reflexivity | vm_compute; reflexivity].
+    split; [exact (Hmem _ (msg_fields_ne m eb) (fields_ok 0 m eb depth_le_2 Hrt He))|]. split; [reflexivity | vm_compute; reflexivity].
   Qed.
 
   (* envelope level *)
@@ -1005,7 +1029,7 @@ Section ParseBack.
     intros Hrt Henc. pose proof (parse_back_member m b Hrt Henc) as Hpm.
     destruct (enc_msg_fields _ _ Henc) as (eb & Hb & He).
     assert (Ht : tight_at 0 b = true).
-    { rewrite Hb. apply Hobj; [apply msg_fields_ne | vm_compute; discriminate | exact (fields_ok m eb Hrt He)]. }
+    { rewrite Hb. apply Hobj; [apply msg_fields_ne | vm_compute; discriminate | exact (fields_ok 0 m eb depth_le_2 Hrt He)]. }
     unfold parse_msgs, split_msgs. rewrite Hb at 1. rewrite first_byte_obj. cbn [N.eqb Pos.eqb negb].
     rewrite (Hval _ Ht). cbn [map]. rewrite Hpm. reflexivity.
   Qed.
